@@ -1,0 +1,43 @@
+//! Verification hook (compiled only with `--cfg unhindered_ec_verif`).
+//!
+//! A second state type the `push_state` macro is applied to, so that the generated builder and
+//! `HasStack` accessors can be exercised on a struct other than `PushState`: a different
+//! number, order and naming of stacks, renamed builder methods, custom input instructions and
+//! two stacks whose element types differ only by a newtype.  (The macro's `HasStack` impls use
+//! an associated-type projection in the impl header, which only passes coherence inside this
+//! crate, so such a struct cannot live in an external harness crate.)
+
+use std::collections::HashMap;
+
+use super::{program::PushProgram, stack::Stack};
+use crate::instruction::{PushInstruction, variable_name::VariableName};
+
+#[derive(Debug, Clone, PartialEq, Eq, Default)]
+pub struct Wrapped(pub i64);
+
+#[must_use]
+pub fn wrapped_input(w: Wrapped) -> PushInstruction {
+    PushInstruction::push_int(w.0.saturating_add(1000))
+}
+
+#[must_use]
+pub fn flag_input(b: bool) -> PushInstruction {
+    PushInstruction::push_bool(b)
+}
+
+#[derive(Default, Debug, Clone, PartialEq)]
+#[push_macros::push_state(builder)]
+pub struct AltState {
+    #[stack(builder_name = flag, instruction_name = crate::push_vm::verif_alt_state::flag_input, ignore_doctests)]
+    pub zz_flags: Stack<bool>,
+    #[stack(exec)]
+    pub code: Stack<PushProgram>,
+    #[stack(builder_name = wrapped, instruction_name = crate::push_vm::verif_alt_state::wrapped_input, ignore_doctests)]
+    pub alt: Stack<Wrapped>,
+    #[stack(ignore_doctests)]
+    pub int: Stack<i64>,
+    #[input_instructions]
+    pub inputs: HashMap<VariableName, PushInstruction>,
+    #[instruction_step_limit]
+    pub steps: usize,
+}
